@@ -340,7 +340,7 @@ M("c12-module-level-cache", ["C12", "C15"], VA,
   "# Singleton instances\nUNDEFINED = JSUndefined()", "_TO_STRING_CACHE = {}\n\n# Singleton instances\nUNDEFINED = JSUndefined()",
   [("C12", "C12-R1", "_TO_STRING_CACHE"), ("C15", "C15-R4", "_TO_STRING_CACHE")])
 M("c12-pointer-not-in-finally", ["C12"], CX,
-  "        self._current_vm = vm\n        try:\n            result = vm.run(compiled)\n        finally:\n            self._current_vm = None\n", "        self._current_vm = vm\n        result = vm.run(compiled)\n        self._current_vm = None\n",
+  "        self._current_vm = vm\n        try:\n            result = vm.run(compiled)\n        finally:\n            self._current_vm = outer\n", "        self._current_vm = vm\n        result = vm.run(compiled)\n        self._current_vm = outer\n",
   [("C12", "C12-R3", "_current_vm")])
 M("c12-eval-private-globals", ["C12"], CX,
   "                vm = VM(ctx.memory_limit, ctx.time_limit)\n                vm.globals = ctx._globals\n", "                vm = VM(ctx.memory_limit, ctx.time_limit)\n                vm.globals = dict(ctx._globals)\n",
@@ -1271,3 +1271,9 @@ M("c13-inner-array-no-postfix", ["C13"], PA,
 M("c13-inner-array-comma-operator", ["C13"], PA,
   "                    element = self._continue_assignment_expression(\n                        self._continue_postfix_expression(array_expr)\n                    )\n", "                    element = self._continue_parsing_expression(\n                        self._continue_postfix_expression(array_expr)\n                    )\n",
   [("C13", "C13-R14", "comma")], note="the full continuation applies the comma operator: [[1], 2] would be one element")
+M("c12-running-pointer-cleared", ["C12", "C01"], CX,
+  "            self._current_vm = outer\n", "            self._current_vm = None\n",
+  [("C12", "C12-R9", "handed-back"), ("C01", "C01-R12", "handed-back")], note="fix 34b30a0 reverted: the pointer is cleared instead of handed back")
+M("c01-reentrant-eval-own-clock", ["C01"], CX,
+  "        started = time.monotonic() if outer is None else outer.start_time\n", "        started = time.monotonic()\n",
+  [("C01", "C01-R12", "handed-back")], note="an evaluation nested through a host function starts a clock of its own")
